@@ -326,3 +326,33 @@ Theorem C06_sync_full_perm_obs : forall w1 w2 : world,
   forall hn, obs_host (fst (sync_full w1)) hn = obs_host (fst (sync_full w2)) hn.
 Proof. exact sync_full_perm_obs. Qed.
 Print Assumptions C06_sync_full_perm_obs.
+
+(* ---- an updated ingress that had configured nothing (no tracking link) ----
+   d/e has an empty spec and is updated to a tls block for t.local.  The model converts it
+   (the merge always includes the updated names).  The code before commits 42edb61 and
+   3533ecf (pre-tracking of rule hosts only, updated ingresses converted only when
+   QueryLinks returns them) never configured t.local; either repair alone is enough in the
+   model. *)
+Theorem C01_model_upd_untracked_ok :
+  batch_ok ew0 ew1 eb1 /\
+  (exists x', sync_partial ew1 (sync_full ew0) eb1 = Some x' /\ Inv ew1 x') /\
+  hosts_kt (sync_partial ew1 (sync_full ew0) eb1) = hosts_kt (Some (sync_full ew1)) /\
+  get_host (fst (sync_full ew1)) "t.local" = Some {| h_paths := []; h_tls := Some "DEFAULT" |}.
+Proof. exact (conj upd_untracked_wf upd_untracked_ok). Qed.
+Print Assumptions C01_model_upd_untracked_ok.
+
+Theorem C01_model_upd_untracked_old_refuted :
+  hosts_kt (sync_partial_gen track_added_ing_old merge_names_old ew1 (sync_full ew0) eb1)
+    = Some [get_host (fst (sync_full ew0)) "k.local"; None] /\
+  hosts_kt (Some (sync_full ew1))
+    = Some [get_host (fst (sync_full ew0)) "k.local"; Some {| h_paths := []; h_tls := Some "DEFAULT" |}].
+Proof. exact upd_untracked_old_refuted. Qed.
+Print Assumptions C01_model_upd_untracked_old_refuted.
+
+Theorem C01_model_upd_untracked_each_repair_ok :
+  hosts_kt (sync_partial_gen track_added_ing_old merge_names ew1 (sync_full ew0) eb1)
+    = hosts_kt (Some (sync_full ew1)) /\
+  hosts_kt (sync_partial_gen track_added_ing merge_names_old ew1 (sync_full ew0) eb1)
+    = hosts_kt (Some (sync_full ew1)).
+Proof. exact upd_untracked_each_repair_ok. Qed.
+Print Assumptions C01_model_upd_untracked_each_repair_ok.
